@@ -206,6 +206,7 @@ def run(ck):
         names = []
     thms = list(THEOREMS) + [n for n in names if n not in THEOREMS]
     ck.print_assumptions(["DSP.C01"], ["DSP.C01." + t for t in thms])
+    ck.source_tie("parser")
     ck.hygiene()
     ck.ocaml_build()
     ck.harness_build(["c01"])
@@ -243,6 +244,15 @@ def run(ck):
         items = [g_item(rng, perturb=0.002, eol=style) for _ in range(n)]
         last = g_item(rng, perturb=0.002) if rng.random() < 0.4 else None
         cases.append((case(items, last), "random-script"))
+    # scripts whose lines REPEAT (the same instruction several times, with the same or with another rendering):
+    # a parser that remembers earlier lines of the same text must still number every line by its position
+    for _ in range(n_rand // 40):
+        pool = [g_item(rng, perturb=0.002) for _ in range(rng.randint(1, 3))]
+        n = rng.randint(2, 12)
+        items = []
+        for _k in range(n):
+            items.append(rng.choice(pool))
+        cases.append((case(items, rng.choice(pool) if rng.random() < 0.4 else None), "repeat-script"))
 
     wires = [w for (w, _) in cases]
     mo = ck.model(wires)
@@ -275,7 +285,7 @@ def run(ck):
             p = ins.split(",")
             key = p[2] if p[2] != "S" else "S:" + "".join("1" if x != "N" else "0" for x in p[3:6])
             shape_hist[key] = shape_hist.get(key, 0) + 1
-        if tag != "random-script":
+        if tag not in ("random-script", "repeat-script"):
             for it in w.split("\t")[1:]:
                 if it not in ("-", "N"):
                     for ac in it.split(",")[9].split(" "):
